@@ -6,7 +6,7 @@ import os
 import struct
 from . import common as c
 
-PRE = ("From Coq Require Import NArith ZArith List String.\nImport ListNotations.\n"
+PRE = ("From Coq Require Import NArith ZArith List Bool String.\nImport ListNotations.\n"
        "From CB Require Import Cbor.CborCore Cbor.CborSchema Cbor.TokenSchemas Cbor.TokenAmount Cbor.Hex.\n"
        "Local Open Scope N_scope.\n")
 
@@ -306,7 +306,7 @@ def run(ctx):
 
     ctx.log("stage 1. values")
     # ------------------------------------------------------------------ 1. values: encode on both sides
-    nval = 500 if q else 12000
+    nval = 300 if q else 12000
     maxdepth = 6 if q else 64
     rc, out = c.run_bin(binp, ["values", ctx.seed, nval, maxdepth], timeout=1200)
     if rc != 0:
@@ -318,22 +318,32 @@ def run(ctx):
     if meta["value_size"] != 32:
         ctx.violation({"layer": "model constant VALUE_SIZE", "meta": meta}, "size_of::<Value>() is not 32", no_input=True)
     cases = [x for x in cases if x["k"] == "val"]
-    exprs = ["(encode V, (value_okb V, value_sortedb V), norm V)".replace("V", v2coq(cs["v"])) for cs in cases]
+    BIG = 1200  # hex chars; larger cases are compared inside Coq (printing long lists dominates otherwise)
+
+    def val_expr(cs):
+        V = v2coq(cs["v"])
+        if len(cs.get("hex", "")) <= BIG or isinstance(cs.get("rt"), str) or not all(ch in "0123456789abcdef" for ch in cs["hex"]):
+            return "(encode %s, (value_okb %s, value_sortedb %s), norm %s)" % (V, V, V, V)
+        R = v2coq(cs["rt"])
+        return "(bytes_eqb (encode %s) %s, (value_okb %s, value_sortedb %s), (veqb (norm %s) %s, veqb %s %s))" % (
+            V, nlist(cs["hex"]), V, V, V, R, V, R)
+    exprs = [val_expr(cs) for cs in cases]
     terms = c.coq_eval(ctx, "values", PRE, exprs, shard=80 if q else 400)
     depths = {}
     for cs, t in zip(cases, terms):
         menc, (okb, sortedb), mnorm = t
-        menc = hx(menc)
+        big = menc in ("true", "false")
         v = v_canon(cs["v"])
         d = depth_of(v)
         depths[min(d, 64) // 8 * 8] = depths.get(min(d, 64) // 8 * 8, 0) + 1
         T.case(["val", cs["v"]], True)
-        bump("values")
+        bump("values" + (":big" if big else ""))
         if cs["hex"] in ("PANIC",) or cs["hex"].startswith("ERR"):
             T.violation({"case": cs}, "cbor_encode failed/panicked on a Value: %s" % cs["hex"][:80])
             continue
-        if menc != cs["hex"]:
-            T.violation({"case": cs, "model": menc, "theorem": "cbor_value_roundtrip / encode_shortest (model proved, impl encodes differently)"},
+        if (menc != "true") if big else (hx(menc) != cs["hex"]):
+            T.violation({"case": cs, "model": "(compared in Coq)" if big else hx(menc),
+                         "theorem": "cbor_value_roundtrip / encode_shortest (model proved, impl encodes differently)"},
                         "cbor_encode differs from the proved model on %s" % json.dumps(cs["v"])[:160])
             continue
         if not cs["det"] or not cs.get("reenc_same", False):
@@ -342,10 +352,14 @@ def run(ctx):
         if isinstance(rt, str):
             T.violation({"case": cs}, "decode(encode v) fails (%s) for %s" % (rt, json.dumps(cs["v"])[:160]))
             continue
-        rtc = v_canon(rt)
-        if okb == "true" and sortedb == "true" and rtc != v:
+        if big:
+            same_as_norm, same_as_v = mnorm[0] == "true", mnorm[1] == "true"
+        else:
+            rtc = v_canon(rt)
+            same_as_norm, same_as_v = rtc == v_model(mnorm), rtc == v
+        if okb == "true" and sortedb == "true" and not same_as_v:
             T.violation({"case": cs}, "decode(encode v) != v for a value in deterministic form")
-        elif rtc != v_model(mnorm):
+        elif not same_as_norm:
             T.violation({"case": cs, "model_norm": str(mnorm)[:500]}, "decode(encode v) differs from the model's normal form")
         if cs["peak"] > C0 + C1 * (len(cs["hex"]) // 2):
             T.violation({"case": cs}, "decode allocated %d bytes for %d input bytes" % (cs["peak"], len(cs["hex"]) // 2))
@@ -354,7 +368,7 @@ def run(ctx):
 
     ctx.log("stage 2. hostile byte streams")
     # ------------------------------------------------------------------ 2. hostile byte streams: decode on both sides
-    nb = 1500 if q else 40000
+    nb = 900 if q else 40000
     rc, out = c.run_bin(binp, ["bytes", ctx.seed, nb, maxdepth], timeout=1200)
     if rc != 0:
         last = [l for l in out.splitlines() if l.startswith("{")][-1:]
@@ -362,12 +376,21 @@ def run(ctx):
                       "byte-stream harness crashed (abort in decode?)", no_input=True)
         return
     cases = lines(out)
-    exprs = ["(run_top B, run_prefix B)".replace("B", nlist(cs["hex"])) for cs in cases]
+    def bytes_expr(cs):
+        B = nlist(cs["hex"])
+        if len(cs["hex"]) <= BIG:
+            return "(run_top %s, run_prefix %s)" % (B, B)
+        top = ("match run_top %s with Some (v, _) => veqb v %s | None => false end" % (B, v2coq(cs["top"]["v"]))
+               if isinstance(cs["top"], dict) else "match run_top %s with Some _ => false | None => true end" % B)
+        pre = ("match run_prefix %s with Some (v, off, _) => veqb v %s && (off =? %d) | None => false end" % (
+            B, v2coq(cs["pre"]["v"]), cs["pre"]["off"])
+            if isinstance(cs["pre"], dict) else "match run_prefix %s with Some _ => false | None => true end" % B)
+        return "(%s, %s)" % (top, pre)
+    exprs = [bytes_expr(cs) for cs in cases]
     terms = c.coq_eval(ctx, "bytes", PRE, exprs, shard=100 if q else 500)
     acc = rej = 0
     worst = 0.0
     for cs, t in zip(cases, terms):
-        mtop, mpre = opt(t[0]), opt(t[1])
         for m in cs["muts"] or ["clean"]:
             bump("bytes:" + m)
         itop, ipre = cs["top"], cs["pre"]
@@ -375,27 +398,35 @@ def run(ctx):
         if itop == "PANIC" or ipre == "PANIC":
             T.violation({"case": cs}, "decoder panicked on input %s" % cs["hex"][:120])
             continue
+        acc += isinstance(itop, dict)
+        rej += not isinstance(itop, dict)
+        if isinstance(itop, dict) and cs["stable"] is False:
+            T.violation({"case": cs}, "re-encoding of an accepted stream is not stable (encode . decode . encode . decode != encode . decode)")
         bad = None
-        if isinstance(itop, dict):
-            acc += 1
-            if mtop is None:
-                bad = "implementation accepts, model rejects"
-            elif v_canon(itop["v"]) != v_model(mtop[0]):
-                bad = "decoded values differ"
-            if cs["stable"] is False:
-                T.violation({"case": cs}, "re-encoding of an accepted stream is not stable (encode . decode . encode . decode != encode . decode)")
+        mtop = mpre = "(compared in Coq)"
+        if t[0] in ("true", "false"):
+            bump("bytes:big")
+            if t[0] != "true":
+                bad = "whole-input decode differs (accept/reject or value)"
+            elif t[1] != "true":
+                bad = "prefix decode differs (accept/reject, value or consumed bytes)"
         else:
-            rej += 1
-            if mtop is not None:
+            mtop, mpre = opt(t[0]), opt(t[1])
+            if isinstance(itop, dict):
+                if mtop is None:
+                    bad = "implementation accepts, model rejects"
+                elif v_canon(itop["v"]) != v_model(mtop[0]):
+                    bad = "decoded values differ"
+            elif mtop is not None:
                 bad = "implementation rejects, model accepts"
-        if bad is None:
-            if isinstance(ipre, dict):
-                if mpre is None:
-                    bad = "prefix decode: implementation accepts, model rejects"
-                elif v_canon(ipre["v"]) != v_model(mpre[0]) or ipre["off"] != mpre[1]:
-                    bad = "prefix decode: value or consumed byte count differ (impl %s, model %s)" % (ipre["off"], mpre[1])
-            elif mpre is not None:
-                bad = "prefix decode: implementation rejects, model accepts"
+            if bad is None:
+                if isinstance(ipre, dict):
+                    if mpre is None:
+                        bad = "prefix decode: implementation accepts, model rejects"
+                    elif v_canon(ipre["v"]) != v_model(mpre[0]) or ipre["off"] != mpre[1]:
+                        bad = "prefix decode: value or consumed byte count differ (impl %s, model %s)" % (ipre["off"], mpre[1])
+                elif mpre is not None:
+                    bad = "prefix decode: implementation rejects, model accepts"
         if bad:
             T.violation({"case": cs, "model_top": str(mtop)[:400], "model_prefix": str(mpre)[:400],
                          "theorem": "correspondence of Decoder / ciborium-ll with Cbor/CborCore.v (dec)"},
